@@ -186,7 +186,8 @@ func (n *node) open() error {
 	n.barrier = make(chan struct{}, 1)
 	cfg := config.StateRoot{}
 	if n.key >= 0 {
-		p, err := walletFile(n.w.dir, fmt.Sprintf("%s-%d", n.w.keyLabel, n.key), n.w.keys[n.key])
+		// (the file is named after the key itself: universes of different sizes number their keys differently)
+		p, err := walletFile(n.w.dir, n.w.keys[n.key].PublicKey().StringCompressed()[:24], n.w.keys[n.key])
 		if err != nil {
 			return err
 		}
